@@ -851,6 +851,31 @@ fn run(ctx: &Ctx, rep: &Report) {
             rep.violation(k, format!("[asset {rel}] {what}"), json!({"asset": rel}), 1 << 20);
         }
     }
+    // packages emitted by the builder (real, rich headers: all dependency kinds, scriptlets, caps, ...)
+    {
+        use crate::gen::build::{build, gen_cfg, pkg_bytes, GenOpts};
+        let nb: u64 = ctx.tier.pick(150, 3000);
+        let base = ctx.work_dir("built");
+        par_for(ctx.threads, nb, 1, |i| {
+            let mut rng = Rng::for_case(ctx.seed, "C05-built", i);
+            let cfg = gen_cfg(&mut rng, &GenOpts { all_levels: false, ..Default::default() });
+            let dir = base.join(format!("c{i}"));
+            if let Ok(Ok(bytes)) = guard(|| build(&cfg, &dir).and_then(|p| pkg_bytes(&p))) {
+                rep.eval(1);
+                let (vs, definite, parsed) = judge_bytes(&bytes);
+                if parsed && definite > 0 {
+                    rep.nontrivial(hash_bytes(&bytes[..bytes.len().min(65536)]));
+                }
+                rep.count("built.accessor_results_compared", definite);
+                rep.count("built.packages", 1);
+                for (k, what) in vs {
+                    rep.violation(k, format!("[built package] {what}"), json!({"cfg": cfg}), 1 << 19);
+                }
+            }
+            let _ = std::fs::remove_dir_all(&dir);
+        });
+        let _ = std::fs::remove_dir_all(&base);
+    }
     let n: u64 = ctx.tier.pick(20_000, 600_000);
     let chunk = 200u64;
     par_for(ctx.threads, n / chunk, 1, |c| {
